@@ -22,7 +22,7 @@ CLAIMED["C16"] = {
 CLAIMED["C17"] = {
   "text": "Machine-checked proof over all (si_signo, si_code) in Int x Int and all pid/uid byte contents that the model of Origin::extract (built from the regenerated consts[] table of extract.c, the ICause discriminants, has_process and From<ICause>) reports the intended cause class, reports a process exactly when the kernel supplies one and then exactly (si_pid, si_uid), takes the signal from si_signo, and that the C and Rust tables are in sync; tied to /repo by regeneration of all four tables each run, by comparing the real Origin::extract with the model on 23k+ synthetic siginfo values with poisoned union bytes, and by real deliveries (kill, raise, sigqueue, from a child, SIGCHLD exit/kill/stop, itimer, POSIX timer) through SignalsInfo<WithOrigin>.",
   "design_ref": "DESIGN.md section 6 C17",
-  "note": "Trusted: Lean kernel, audited axioms, extractor, harness; kernelFills (which si_code carry si_pid/si_uid) is an environment table validated by the real deliveries; Linux x86_64 siginfo layout for the independent raw reader; macOS arm not modelled.",
+  "note": "Trusted: Lean kernel, audited axioms, extractor, harness; kernelFills (which si_code carry si_pid/si_uid) is an environment table validated by the real deliveries; Linux x86_64 siginfo layout for the independent raw reader; macOS arm not modelled. The translator also reads has_process in its matches! form; a section it cannot read is regenerated from its last good reading for the search (and reported as no longer checking).",
   "technique": "Lean 4 proof by case analysis over the regenerated lookup tables (all integers) + differential table sweep + real-delivery probes",
 }
 
@@ -36,7 +36,7 @@ CLAIMED["C01"] = {
 CLAIMED["C18"] = {
   "text": "Machine-checked proofs on the N-thread half-lock step machine, for every reachable state of every interleaving: no deadlock (some thread is always enabled while any is unfinished), mutual exclusion of writers, readers (deliveries) are wait-free (every reader step is enabled regardless of other threads), quiescent completion (a writer anywhere inside write()/store() with both reader counters at zero returns alone within 8 own steps), and poisoning of the writer mutex never disables a step. Tied to /repo by lock-step differential execution of the real HalfLock under the deterministic scheduler (including destructors that panic under the writer mutex) against the model, with monitors for completion, the quiescent bound and non-wedging on the implementation trace.",
   "design_ref": "DESIGN.md section 6 C18",
-  "note": "Trusted: as C01 (SC, shim completeness, scheduler). Termination is proved in the bounded-step / enabledness form above for finite workloads; with an infinite stream of overlapping deliveries a writer can spin by design and that liveness is not claimed. The iterator-level part (instance mutex of Signals: add_signal/Drop after a panic) is decided under C12. Registry level, every reachable L6 state: C18_registry_waits_only_for_data_mutex, C18_registry_no_deadlock, C18_registry_lock_order; tie theorem C18_lock_order_source.",
+  "note": "Trusted: as C01 (SC, shim completeness, scheduler). Termination is proved in the bounded-step / enabledness form above for finite workloads; with an infinite stream of overlapping deliveries a writer can spin by design and that liveness is not claimed. The iterator-level part (instance mutex of Signals: add_signal/Drop after a panic) is decided under C12. Registry level, every reachable L6 state: C18_registry_waits_only_for_data_mutex, C18_registry_no_deadlock, C18_registry_lock_order; tie theorem C18_lock_order_source. Props/C18b.lean (every reachable state): C18_seen_slot_not_reloaded, C18_seen_flags_sticky, C18_barrier_ends_when_both_seen - the barrier's per-slot flags are sticky, a slot seen empty is never loaded again and the barrier ends with the load that finds the second one empty, so a delivery that arrives after the writer saw its slot empty is never waited for; the same rule is a monitor on the real barrier's traces (scenarios with a stream of overlapping read sections).",
   "technique": "Lean 4 invariants + bounded-progress lemmas over an N-thread step machine + lock-step correspondence under a deterministic scheduler",
 }
 
@@ -50,7 +50,7 @@ CLAIMED["C02"] = {
 CLAIMED["C03"] = {
   "text": "Lean 4 theorems, for every state of the rest of the system (reachable or not, i.e. every point at which every other thread - or the interrupted thread - may be paused): a thread inside a half-lock read section performs only atomic load / fetch_add / fetch_sub, every such step is enabled regardless of all other threads and strictly decreases the number of own steps left (read section = exactly 4 + uses own steps), a release of a snapshot is never performed from a read section, and between pinning and unpinning the dispatcher only calls the chained handler and the actions and releases nothing. Tied to /repo by the registry step correspondence with deliveries forced at every scheduling point of concurrent mutators (incl. nested on the mutator's own thread), a per-step event-kind monitor on the implementation trace (no lock/alloc/free/spin/yield/syscall inside a delivery, step bound 8 + actions + chained handler) and a #[global_allocator] wrapper counting heap operations of library code inside deliveries.",
   "design_ref": "DESIGN.md section 6 C03",
-  "note": _RC_NOTE + " Built-in actions (flag, pipe wake, exfiltrators, conditional shutdown) are covered at the step level where their code is shimmed (channel, exfiltrators: C06-C10) and otherwise by the heap/lock monitors; see DESIGN.md for what is partial. Proved for every reachable L6 state: C03_registry_delivery_step (always enabled, handler-safe event, nothing released) and C03_registry_delivery_bounded (exact own-step count: at most 6 to the pin, then chained handler + pinned actions + 2).",
+  "note": _RC_NOTE + " Built-in actions (flag, pipe wake, exfiltrators, conditional shutdown) are covered at the step level where their code is shimmed (channel, exfiltrators: C06-C10) and otherwise by the heap/lock monitors; see DESIGN.md for what is partial. Proved for every reachable L6 state: C03_registry_delivery_step (always enabled, handler-safe event, nothing released) and C03_registry_delivery_bounded (exact own-step count: at most 6 to the pin, then chained handler + pinned actions + 2). Nested deliveries are started at a delayed global step so that they land anywhere inside their host's operation (e.g. between the installation of the dispatcher and the publication of the slot); the own-step bound is also applied to deliveries that have not returned when the schedule ends.",
   "technique": "Lean 4 wait-freedom / bounded-step lemmas + event-kind and heap monitors on scheduled executions of the real dispatcher",
 }
 CLAIMED["C04"] = {
@@ -84,19 +84,19 @@ _IT_NOTE = "Trusted: Lean kernel + audited axioms; SC for `closed` and the Signa
 CLAIMED["C09"] = {
   "text": "Machine-checked inductive invariant on the iterator model L8 (any number of delivery and close threads, one consumer of either front-end family, any pipe capacity > 0 and initial fill, every interleaving): a delivered signal whose wake-up has completed is either announced by a byte in the pipe, or the instance is closed, or the consumer is at a point from which it compare-exchanges that signal's slot before it can block or answer Pending. Corollaries: while open, a consumer blocked in its blocking read with an empty pipe, or at/after a non-blocking callback that found nothing, or parked as Pending with an exhausted iterator, has no delivered-and-woken signal unreported; a scan reaching a set slot yields it; store precedes wake. Tied to /repo by lock-step execution of the real SignalDelivery/SignalIterator (real dispatcher + real action, callbacks as scheduling points, optionally pre-filled pipe) against L8 and a lost-wake-up monitor on the implementation trace.",
   "design_ref": "DESIGN.md section 6 C09",
-  "note": _IT_NOTE + " Liveness ('obtains the signal') is proved in the safety form above (never stranded) plus the scan lemma, not as a temporal statement.",
+  "note": _IT_NOTE + " Liveness ('obtains the signal') is proved in the safety form above (never stranded) plus the scan lemma, not as a temporal statement. The front ends themselves (Signals::pending/wait/forever with its has_signals loop, signal-hook-mio under a real mio::Poll, the tokio and async-std streams with a flag waker) are driven by real raise() in forked children and compared with L8 run sequentially (driver mode frontends), bursts around the 16-byte and 1024-byte chunk sizes included.",
   "technique": "Lean 4 inductive invariant over an N-thread step machine + lock-step model/implementation correspondence",
 }
 CLAIMED["C10"] = {
   "text": "Machine-checked counting invariant on L8 for every reachable state of every interleaving and every consumer front-end, also after close: for each signal number, yields so far plus the possibly pending slot never exceed the slot stores (deliveries begun) so far; every yielded number is a watched one when only watched signals have the instance's action. Tied to /repo by the lock-step iterator correspondence and a per-signal counting / slot-index monitor on the implementation trace; for the info-carrying exfiltrators the per-signal record queue is the Channel of C06/C07 (faithful copy, at most one record per delivery, delivery order) exercised by the channel checks.",
   "design_ref": "DESIGN.md section 6 C10",
-  "note": _IT_NOTE + " The WithRawSiginfo/WithOrigin paths are covered through the channel model and the C17 real-delivery probes, not by a dedicated L8 instance.",
+  "note": _IT_NOTE + " The WithRawSiginfo/WithOrigin paths are covered through the channel model and the C17 real-delivery probes, not by a dedicated L8 instance. Scenarios in which two or three batches (Pending) of one instance are drained concurrently by different threads are part of the lock-step runs.",
   "technique": "Lean 4 inductive counting invariant + lock-step correspondence",
 }
 CLAIMED["C11"] = {
   "text": "Machine-checked on L8 for every reachable state of every interleaving: closed is sticky (no step resets it); with the current (fixed) shape of poll_signal a non-blocking poll returns Pending only if its readiness callback was consulted during that same call and last answered 'nothing available' (inductive invariant on the re-check program point); a kernel-checked 3-step witness shows the shape before the fix violates this, and the fixed shape answers Closed on the same schedule; the shape flag is regenerated from backend.rs each run. Tied to /repo by the lock-step iterator correspondence with close() threads racing every consumer step, callback-consultation logging, and monitors (sticky flag, store-before-wake in close, Pending implies consulted-false, no consumer left blocked after a completed close).",
   "design_ref": "DESIGN.md section 6 C11 and section 7.1",
-  "note": _IT_NOTE + " The genuine defect found by this check on the original tree was repaired by fix: commit c911cc7 (known_findings.json, fixed). C11_close_unblocks (Props/C11b.lean, inductive CloseInv): in every reachable state, once close() has returned, the consumer's next step is enabled - it is never left in its blocking callback; the numeric step bound to Closed is monitored on every explored schedule.",
+  "note": _IT_NOTE + " The genuine defect found by this check on the original tree was repaired by fix: commit c911cc7 (known_findings.json, fixed). C11_close_unblocks (Props/C11b.lean, inductive CloseInv): in every reachable state, once close() has returned, the consumer's next step is enabled - it is never left in its blocking callback; the numeric step bound to Closed is monitored on every explored schedule. The adapters (signal-hook-tokio, signal-hook-async-std) are probed at operation level: a poll_next answering Pending followed by a delivery or close() must call the task's waker; compared with L8 run sequentially.",
   "technique": "Lean 4 inductive invariant + kernel-checked defect witness + lock-step correspondence",
 }
 
